@@ -126,8 +126,8 @@ async def _run(k, fault):
                     p.handlers['s'].raise_in = ('on_close',)
                 else:
                     for s in specs:
-                        if what == 'pub-cancel' and s['model'] in ('stream', 'channel') and s['resp'].get('source', 'rec') == 'rec':
-                            s['resp']['raise_in'] = ('cancel',)
+                        if what == 'pub-cancel' and s['model'] in ('stream', 'channel'):
+                            s['resp']['raise_in'] = ('cancel',)       # RecPublisher.cancel / the generators' on_cancel
                         if what == 'sub-on_error' and s['model'] in ('stream', 'channel'):
                             s['sub_raise_in'] = ('on_error',)
     for s in specs:
@@ -140,6 +140,8 @@ async def _run(k, fault):
     await asyncio.sleep(SETTLE)
     settled_at = len(world.events)
     t_settled = asyncio.get_event_loop().time()
+    produced_at_settle = {(s['iid'], d_): g['next_calls'] for s in specs
+                          for d_, g in world.inter[s['iid']].get('gen_sources', {}).items()}
     await asyncio.sleep(3.0)      # anything sent in here is sent after the settle began
     obs = {'fault_hit': fault_hit, 'tasks': {}, 'delivered': {s: link.delivered(s) for s in 'cs'}, 'broken': link.broken,
            'settled_at': settled_at, 't_settled': t_settled}
@@ -176,6 +178,7 @@ async def _run(k, fault):
                 d['gens'][direction] = dict(g)
         snap[s['iid']] = d
     obs['snap'] = snap
+    obs['produced_at_settle'] = produced_at_settle
     for t in tasks:
         t.cancel()
     if extra is not None:
@@ -366,6 +369,9 @@ def judge(p, specs, obs, fault):
                         if pub['cancel_calls'] == 0:
                             bad('publisher-not-cancelled', iid=iid, endpoint=ep, direction=direction)
                     g = sn['gens'].get(direction)
+                    if g is not None and g['next_calls'] > obs['produced_at_settle'].get((iid, direction), 0):
+                        bad('generator-still-producing-after-the-connection-ended', iid=iid, endpoint=ep,
+                            produced_at_settle=obs['produced_at_settle'].get((iid, direction)), produced_3s_later=g['next_calls'])
                     if g is not None and g['next_calls'] > 0 and not g['finally'] and g['cancel_cb'] == 0:
                         st['producers_judged'] += 1
                         bad('publisher-not-cancelled', iid=iid, endpoint=ep, direction=direction, source='generator')
@@ -445,7 +451,7 @@ def extra_coverage(results):
 
 
 BLOCKED_CLAUSES = ('request-left-hanging', 'publisher-not-cancelled', 'handler-future-not-cancelled',
-                   'tasks-still-running', 'on_close-not-exactly-once')
+                   'tasks-still-running', 'on_close-not-exactly-once', 'generator-still-producing-after-the-connection-ended')
 
 
 def classify(w):
